@@ -22,6 +22,7 @@ import vlib
 
 LEVEL = "model_checking"
 
+CLAIMED = True   # set by the lead after review; only claimed checks enter MANIFEST.json
 MANIFEST = dict(
     category="model_checking",
     technique="TLA+ partial-aggregate algebra (Add/CloseSegment/Merge state machine vs direct set aggregates, TLC exhaustive over all "
